@@ -71,6 +71,8 @@ fn required(plan: &Plan) -> Vec<String> {
         "empty-alphabet",
         "refusal",
         "generations:3",
+        "generations:source-cleared-and-refilled",
+        "generations:encoded-cleared-and-refilled",
         "push-read-item:raw->encoded",
         "push-read-item:encoded->encoded",
         "push-read-item:encoded->raw",
@@ -591,6 +593,19 @@ fn generations(ctx: &mut Ctx) {
     let mut prev: Vec<HuffmanContainer<u8>> = Vec::new();
     // generation 0: raw
     let mut raw = HuffmanContainer::<u8>::default();
+    // every other history: the raw source held other data (a symbol that never comes back,
+    // and a reversed frequency profile) and was cleared; statistics start over at a clear
+    let recycled = ctx.hist_no % 2 == 1;
+    if recycled {
+        let junk_syms: Vec<u8> = vec![99, 60, 50, 40, 30, 20, 10];
+        let junk_w: Vec<i64> = vec![40, 20, 10, 5, 3, 1, 1];
+        for it in random_items(&mut rng, &junk_syms, &junk_w, 30, 10) {
+            let _ = raw.push(&it);
+        }
+        raw.clear();
+        ctx.log("generation 0: a raw container that held other data (heavy symbol 99) and was cleared".into());
+        ctx.cover("generations:source-cleared-and-refilled");
+    }
     let mut counts: BTreeMap<u8, i64> = BTreeMap::new();
     for it in random_items(&mut rng, &syms, &weights, 40, 10) {
         for s in &it {
@@ -633,6 +648,31 @@ fn generations(ctx: &mut Ctx) {
         }
         if !e.check_all(ctx) {
             return;
+        }
+        if recycled && g == 1 {
+            // a symbol that only the cleared-away data held is outside the statistics
+            let mut probe = e.h.clone();
+            match panics::catch(|| probe.push(&vec![99u8])) {
+                Err(_) => ctx.cover("refusal"),
+                Ok(idx) => {
+                    ctx.fail("unknown-symbol-accepted", format!("symbol 99 was only pushed before the source was cleared, yet the merged container accepted it ({idx:?})"));
+                    return;
+                }
+            }
+        }
+        if recycled && g == 2 {
+            // clear the encoded generation: it is raw again and its statistics start over
+            e.h.clear();
+            ctx.log("generation 2 cleared and refilled raw".into());
+            next = BTreeMap::new();
+            let w2: Vec<i64> = covered.iter().enumerate().map(|(i, _)| weights[(i + 3) % weights.len()]).collect();
+            for it in random_items(&mut rng, &covered, &w2, 30, 12) {
+                for s in &it {
+                    *next.entry(*s).or_insert(0) += 1;
+                }
+                let _ = e.h.push(&it);
+            }
+            ctx.cover("generations:encoded-cleared-and-refilled");
         }
         counts = next;
         prev.push(e.h);
